@@ -550,9 +550,21 @@ func parseContractLines(lines []string, wheres []string) ([]*rawBlock, error) {
 	return blocks, nil
 }
 
+var ifatRe = regexp.MustCompile(`^ifat\s+"((?:[^"\\]|\\.)*)"(?:#(\d+))?\s+(.*)$`)
 var atRe = regexp.MustCompile(`^at\s+"((?:[^"\\]|\\.)*)"(?:#(\d+))?\s+(.*)$`)
 
 func parseClauseLine(t string) (*rawClause, bool) {
+	if m := ifatRe.FindStringSubmatch(t); m != nil {
+		sub, ok := parseClauseLine(strings.TrimSpace(m[3]))
+		if !ok || sub.kind != "guard" {
+			return nil, false
+		}
+		n := 1
+		if m[2] != "" {
+			n, _ = strconv.Atoi(m[2])
+		}
+		return &rawClause{scope: "ifat", ord: n, atText: strings.ReplaceAll(m[1], `\"`, `"`), sub: sub}, true
+	}
 	if m := atRe.FindStringSubmatch(t); m != nil {
 		sub, ok := parseClauseLine(strings.TrimSpace(m[3]))
 		if !ok || sub.kind != "assert" {
@@ -1222,6 +1234,43 @@ func (p *Program) fillContract(fc *FuncContract, clauses []*rawClause, body *ast
 			}
 			fc.asserts[hits[rc.ord-1]] = append(fc.asserts[hits[rc.ord-1]], cl)
 			continue
+		case "ifat":
+			// ifat "<statement>"[#k] guard ...: the if statement whose then-branch directly contains the k-th statement
+			// with that source text (anchoring by a statement of the body keeps the clause attached when the condition
+			// itself or the number of earlier ifs changes)
+			want := strings.Join(strings.Fields(rc.atText), " ")
+			var owners []*ast.IfStmt
+			ast.Inspect(body, func(n ast.Node) bool {
+				ifs, ok := n.(*ast.IfStmt)
+				if !ok {
+					return true
+				}
+				for _, st := range ifs.Body.List {
+					var sb strings.Builder
+					printNode(&sb, p.fset, st)
+					got := strings.Join(strings.Fields(sb.String()), " ")
+					if got == want || (strings.HasSuffix(want, "...") && strings.HasPrefix(got, strings.TrimSuffix(want, "..."))) {
+						owners = append(owners, ifs)
+					}
+				}
+				return true
+			})
+			if rc.ord < 1 || rc.ord > len(owners) {
+				p.bindIssues = append(p.bindIssues, bindIssue{fc.key, fmt.Sprintf("%s: %s has no if statement #%d whose body contains `%s`", rc.where, fc.key, rc.ord, rc.atText)})
+				continue
+			}
+			ord := 0
+			for i, s := range ifsOf(body) {
+				if s == owners[rc.ord-1] {
+					ord = i + 1
+				}
+			}
+			if ord == 0 {
+				p.bindIssues = append(p.bindIssues, bindIssue{fc.key, fmt.Sprintf("%s: if statement of `%s` lies inside a function literal", rc.where, rc.atText)})
+				continue
+			}
+			rc.scope, rc.ord = "if", ord
+			fallthrough
 		case "if":
 			ifs := ifsOf(body)
 			if rc.ord < 1 || rc.ord > len(ifs) {
